@@ -24,7 +24,7 @@ PRIMITIVES = {
     'REMOVE': ['pox.rmtree(p, self=True)', 'os.remove(p)', 'shutil.rmtree(p)', 'execute(delete ... where ...)', 'sql.delete(t).where(...)', 'table.drop(...)',
                'del / pop on an open hdf file'],
     'CLEARALL': ['pox.rmtree(root, self=False)', 'table.delete() without where', '__save__({})'],
-    'MKDIR': ['pox.mkdir'], 'RENAME': ['os.rename', 'os.renames', 'os.replace', 'shutil.move'], 'COPY': ['shutil.copy2', 'shutil.copytree', 'shutil.copy', 'shutil.copyfile'],
+    'MKDIR': ['pox.mkdir', 'os.mkdir', 'os.makedirs'], 'RENAME': ['os.rename', 'os.renames', 'os.replace', 'shutil.move'], 'COPY': ['shutil.copy2', 'shutil.copytree', 'shutil.copy', 'shutil.copyfile'],
     'COMMIT': ['self._conn.commit()'],
 }
 
@@ -486,6 +486,10 @@ class AModel(Model):
             # pox.mkdir returns the absolute path of what it created
             rv = p if root is not None else ('call', ('lib', 'os.path.abspath'), (p,), ())
             return self.prim(st, 'MKDIR', (p,), line, IO_TOKENS, val=rv)
+        if full in ('os.mkdir', 'os.makedirs') and args:
+            return self.prim(st, 'MKDIR', (args[0],), line, IO_TOKENS, val=NONE)
+        if full in ('os.rmdir', 'os.removedirs') and args:
+            return self.prim(st, 'RMTREE', (args[0], C(True)), line, IO_TOKENS)
         if full in ('glob.glob', 'glob.iglob') and args:
             # glob(os.path.join(root, pattern)): a listing of root by pattern (the root itself is part of the glob expression: see A-GLOBROOT)
             a0 = args[0]
